@@ -518,7 +518,8 @@ class HyperscanTokenizer(Tokenizer):
                 start = byte_to_str_offset[start]
                 end = byte_to_str_offset[end]
                 m = extractor.compiled_regex.match(text[start:end])
-                yield extractor.get_token(m, offset=start)
+                if m:
+                    yield extractor.get_token(m, offset=start)
 
     @property
     def hyperscan_db(self):
